@@ -5,6 +5,7 @@ from props.common import *
 from props import dwtfam
 
 ID = 'C10'
+GRAD_MODES = True
 PROPS_MODULE = 'Props.C10'
 THEOREMS = ['C10_level_nonper_row', 'C10_level_per_row', 'C10_level_2d', 'C10_level_2d_per', 'C10_multilevel_1d', 'C10_multilevel_1d_per', 'C10_multilevel_2d', 'C10_multilevel_2d_per', 'C10_level_per_row_code', 'C10_per_short_refuted']
 VO = ['theories/Props/C10.vo', 'theories/Run/RunDwt.vo', 'theories/Run/RunSpec.vo']
